@@ -769,8 +769,17 @@ func main() {
 	}
 	for _, k := range ks {
 		for d := -60; d <= 60; d++ {
-			if !thorough && k > 1 && (!edge[d] || (k == 5 && d%2 != 0)) {
-				continue
+			if !thorough { // k = 1: every third d plus the edges (the band below covers F-52-4t .. F+1 densely)
+				switch {
+				case k == 1 && !edge[d] && d%3 != 0:
+					continue
+				case k == 2 && !edge[d]:
+					continue
+				case k == 3 && (!edge[d] || d == -62 || d == -58 || d == -54 || d == -48 || d == 2 || d == 30):
+					continue
+				case k == 5 && d != -51 && d != -50 && d != 0 && d != 1:
+					continue
+				}
 			}
 			n := k*F + d
 			var h HistSpec
@@ -846,7 +855,7 @@ func main() {
 		}
 	}
 	// ---- random sizes and interleavings
-	nr, big := 24, 3
+	nr, big := 16, 3
 	if thorough {
 		nr, big = 1200, 5
 	}
